@@ -98,13 +98,14 @@ func loadersReplay(c *vk.Ctx, prop string) int {
 		bodies := map[int][]byte{1: rw.build("good", []string{"x"}), 2: rw.build("good", []string{"y"}), 3: rw.build("good", []string{"z"})}
 		var mu sync.Mutex
 		reqs := 0
+		setup := true
 		arrivals := make(chan *heldRequest, 8)
 		rw.org.Set(pathRepo, origin.Behaviour{Kind: "func", Func: func([]byte) (int, []byte) {
 			mu.Lock()
 			reqs++
-			first := reqs == 1
+			first := setup
 			mu.Unlock()
-			if first {
+			if first { // while the entry is being made known (however often the loader asks), the origin is out of order
 				return 200, []byte("<html>maintenance</html>")
 			}
 			h := &heldRequest{resp: make(chan []byte, 1)}
@@ -117,6 +118,9 @@ func loadersReplay(c *vk.Ctx, prop string) int {
 			}
 		}})
 		rw.w.HandshakeTimeout(rw.chains["driver"], 60*time.Second) // the entry is known, nothing is loaded
+		mu.Lock()
+		setup = false
+		mu.Unlock()
 		var reqA, reqB *heldRequest
 		var doneA, doneB chan struct{}
 		fetchedA, fetchedB := 0, 0
